@@ -1,7 +1,6 @@
 package constructor
 
 import (
-	"fmt"
 	"go/ast"
 	"go/token"
 
@@ -33,7 +32,8 @@ func (v ConstructorViolation) GetPos() token.Pos {
 
 // GetMessage returns the main error message without formatting
 func (v ConstructorViolation) GetMessage() string {
-	return fmt.Sprintf("[%s] %s", v.Code, v.Reason)
+	// (the code is shown by the reporter, like for the other checkers)
+	return v.Reason
 }
 
 // ReportViolations reports constructor violations using the new pretty formatter
